@@ -163,6 +163,13 @@ def make_box(name, n, p=1, extra_row=False):
                 env.update({f"c{i}": c for i, c in enumerate(cut)})
                 fe = FloatEval(env, eng)
                 try:
+                    on_path = all(fe(c) for c in eng.pc[: eng.synced])      # e.g. the variance-floor branch of this path
+                except Exception:
+                    on_path = False
+                if not on_path:
+                    acc.inc("witness_point_not_on_path")
+                    return
+                try:
                     with proxy.native():
                         nat = build(name, p)[0].fit(Xf).evaluate(np.array([cut]))
                     ok = all(close(float(nat[0, j]), float(fe(rv(out[-1][j]))), 1e-7, 1e-7) for j in range(nat.shape[1]))
